@@ -54,3 +54,12 @@ Q("kfact-np-block", "subspacemin.py",
   "    LK = np.block([[L11, np.zeros(L12.shape)], [L12.T, L22]])\n", ["KFACT"])
 Q("kfact-inline-blocks", "subspacemin.py",
   "    L11 = sp.linalg.cholesky(K11, lower=True, overwrite_a=False)\n", "    L11 = sp.linalg.cholesky(-K[:m, :m], lower=True)\n", ["KFACT"])
+
+# ---- KFORM
+M("kform-k21-transposed", "subspacemin.py", "    K[m:, :m] = mats.L - STZZTY\n", "    K[m:, :m] = (mats.L - STZZTY).T\n", ["KFORM"], canary=True)
+M("kform-k11-theta-dropped", "subspacemin.py", "    K[:m, :m] = -mats.D - (1 / mats.theta) * YTZZTY\n", "    K[:m, :m] = -mats.D - YTZZTY\n", ["KFORM"])
+M("kform-k22-from-z", "subspacemin.py", "        STAATS = mats.S.T @ A @ A.T @ mats.S\n", "        STAATS = mats.S.T @ Z @ Z.T @ mats.S\n", ["KFORM"])
+M("kform-k21-sign", "subspacemin.py", "    K[m:, :m] = mats.L - STZZTY\n", "    K[m:, :m] = mats.L + STZZTY\n", ["KFORM"])
+M("kform-stzzty-from-y-s", "subspacemin.py", "        STZZTY = mats.S.T @ Z @ Z.T @ mats.Y\n", "        STZZTY = mats.Y.T @ Z @ Z.T @ mats.S\n", ["KFORM"])
+Q("kform-k12-explicit", "subspacemin.py", "    K[:m, m:] = (mats.L - STZZTY).T\n", "    K[:m, m:] = mats.L.T - STZZTY.T\n", ["KFORM"])
+Q("kform-theta-division", "subspacemin.py", "    K[:m, :m] = -mats.D - (1 / mats.theta) * YTZZTY\n", "    K[:m, :m] = -mats.D - YTZZTY / mats.theta\n", ["KFORM"])
